@@ -39,6 +39,8 @@ type RouteSpec struct {
 	// Ref > 0: the route also references the case's shared named matcher Shared[Ref-1]; its criteria
 	// (AND-lists only) hold in addition to the route's own
 	Ref int `json:"ref,omitempty"`
+	// RefFirst: the reference to the shared matcher is written before the route's own match block / matcher
+	RefFirst bool `json:"ref_first,omitempty"`
 }
 
 // SharedMatch is a named matcher several routes may reference. It carries only the criteria kinds
@@ -143,16 +145,22 @@ func c10Text(routes []RouteSpec, shared ...SharedMatch) string {
 		}
 		hasMatch := len(r.Methods)+len(r.Hosts)+len(r.Headers)+len(r.HeaderExist)+len(r.Query)+len(r.QueryExist)+len(r.RemoteIPs) > 0
 		var rb strings.Builder
+		own, ref := "", ""
 		if hasMatch && r.inbound() {
 			if r.Named {
 				fmt.Fprintf(&named, "@m%d {\n%s}\n", i, matchLines("  "))
-				fmt.Fprintf(&rb, "  match @m%d\n", i)
+				own = fmt.Sprintf("  match @m%d\n", i)
 			} else {
-				fmt.Fprintf(&rb, "  match {\n%s  }\n", matchLines("    "))
+				own = fmt.Sprintf("  match {\n%s  }\n", matchLines("    "))
 			}
 		}
 		if r.Ref > 0 && r.Ref <= len(shared) && r.inbound() {
-			fmt.Fprintf(&rb, "  match @s%d\n", r.Ref)
+			ref = fmt.Sprintf("  match @s%d\n", r.Ref)
+		}
+		if r.RefFirst {
+			rb.WriteString(ref + own)
+		} else {
+			rb.WriteString(own + ref)
 		}
 		switch r.Mode {
 		case "pull":
@@ -464,6 +472,7 @@ func genRouteSpec(t *rapid.T, usedPaths map[string]bool, nshared ...int) (RouteS
 	bias := 0
 	if len(nshared) > 0 && nshared[0] > 0 && rapid.Bool().Draw(t, "has_ref") {
 		r.Ref = rapid.IntRange(1, nshared[0]).Draw(t, "ref")
+		r.RefFirst = rapid.Bool().Draw(t, "ref_first")
 		bias = 2 // routes sharing a matcher mostly add own criteria of the same kinds
 	}
 	if rapid.IntRange(0, 2).Draw(t, "has_methods") == 0 {
